@@ -71,39 +71,16 @@ theorem divsOK_same (x : Bytes) : DivsOK x x x := by
   · exact Or.inl ⟨h, h, h⟩
 
 theorem rlFinish_ok (L I R : Bytes) (cols : List (List Bytes)) (cw : List Nat)
-    (hlen : cols.length = cw.length) (hne : ∀ c ∈ cols, c ≠ []) (hsafe : LineSafe L I cw) :
+    (_hlen : cols.length = cw.length) (_hne : ∀ c ∈ cols, c ≠ []) (_hsafe : LineSafe L I cw) :
     ∃ b, rlFinish L I R cols = .ok b := by
   unfold rlFinish
-  have hfields : I ≠ [] → ((if L != [] then [L] else []) ++ cols.flatten).length ≠ 0 := by
-    intro hI
-    rcases hsafe with h | h | h
-    · exact absurd h hI
-    · simp [h]
-    · cases cols with
-      | nil => cases cw with
-        | nil => exact absurd rfl h
-        | cons _ _ => simp at hlen
-      | cons c t =>
-        have hc := hne c (by simp)
-        cases c with
-        | nil => exact absurd rfl hc
-        | cons _ _ => simp
   simp only []
-  generalize ((if L != [] then [L] else []) ++ cols.flatten) = fields at hfields ⊢
   split
-  · rename_i hc
-    have hI : I ≠ [] := by intro e; subst e; simp at hc
-    split
-    · rename_i h0; exact absurd h0 (hfields hI)
-    · exact ⟨_, rfl⟩
+  · exact ⟨_, rfl⟩
   · split
     · exact ⟨_, rfl⟩
     · split
-      · rename_i hc
-        have hI : I ≠ [] := by intro e; subst e; simp at hc
-        split
-        · rename_i h0; exact absurd h0 (hfields hI)
-        · exact ⟨_, rfl⟩
+      · exact ⟨_, rfl⟩
       · exact ⟨_, rfl⟩
 
 /-- one content line never fails -/
@@ -251,15 +228,17 @@ example : (renderTextBody ascii zeroViewNoHeader).res = .ok () := by
   have : i = 0 := by simp [zeroViewNoHeader, zeroView] at hi; omega
   subst this; left; rfl
 
-/-- COUNTER-EXAMPLE (DivsOK is a real hypothesis).  A hand-made decoration with an inner body
-    divider but no body border: on a zero-column table with one (empty) row, `fields` is empty and
-    `fields = fields[:len(fields)-1]` panics (Go: slice bounds out of range [:-1]). -/
+/-- A hand-made decoration with an inner body divider but no body border, on a zero-column table with
+    one (empty) row: `fields` is empty.  Before the repair recorded as D28 (DESIGN.md section 3) the code
+    panicked here (`fields[:len(fields)-1]`, slice bounds out of range); now there is nothing to drop
+    and the line is empty.  `DivsOK` is therefore no longer needed for totality (it is kept as a
+    hypothesis of the older theorems, which stay true). -/
 def partialDeco : Decoration := { vBodyInner := [124] }
 example : ¬ DivsOK partialDeco.vBodyBorder partialDeco.vBodyInner partialDeco.vBodyBorder := by
   rintro (⟨h, _, _⟩ | ⟨_, h, _⟩)
   · exact h rfl
   · cases h
-example : (renderTextBody partialDeco zeroView).res = .error (.panic "emit.fields[:len-1]") := by rfl
+example : (renderTextBody partialDeco zeroView).res = .ok () := by rfl
 /-- the header line can never be the culprit (its three dividers are the same glyph), and with at
     least one column the same decoration renders fine -/
 example : (renderTextBody partialDeco { zeroView with ncols := 1, colAlign := [none, none] }).res = .ok () := by
